@@ -143,7 +143,8 @@ def step (w : W) (ts : List String) : W × String :=
   | _ => (w, "bad-op")
 
 def variantOf (args : List String) : Variant :=
-  ⟨!args.contains "pinned-F4", !args.contains "pinned-F5a", !args.contains "pinned-F5b", !args.contains "pinned-F6a"⟩
+  ⟨!args.contains "pinned-F4", !args.contains "pinned-F5a", !args.contains "pinned-F5b", !args.contains "pinned-F6a",
+   !args.contains "pinned-F10"⟩
 
 def main (args : List String) : IO Unit := do
   let v := variantOf args
